@@ -44,6 +44,15 @@ def _base_cfg(fam, importer=False, mode=None):
                          decision="MyopicNaiveGreedyDecision", model="two_body", seed=3, template="minimal_init.json",
                          extra_targets=[su.target_cfg(50001 + i, sma_km=7100.0 + 200 * i, inc_deg=30.0 + 15 * i, ta_deg=40.0 * i)
                                         for i in range(fam["nt"] - 1)])
+    if fam.get("two_engines"):
+        # two tasking engines with disjoint networks: each loads imported observations in its own assess()
+        import copy as _copy
+        eng = cfg["engines"][0]
+        e2 = _copy.deepcopy(eng)
+        e2["unique_id"] = eng["unique_id"] + 1
+        e2["targets"], e2["sensors"] = eng["targets"][1:], eng["sensors"][2:]
+        eng["targets"], eng["sensors"] = eng["targets"][:1], eng["sensors"][:2]
+        cfg["engines"] = [eng, e2]
     if importer:
         cfg["propagation"]["target_realtime_propagation"] = "t" not in mode
         cfg["propagation"]["sensor_realtime_propagation"] = "s" not in mode
@@ -124,8 +133,8 @@ def _run_variant(fam, var, src, workdir):
     rows, obs = _importer_tables(dst, fam)
     before = _sha(dst)
     cfg = _base_cfg(fam, importer=True, mode=var["mode"])
-    tids = [t["id"] for t in cfg["engines"][0]["targets"]]
-    sids = [s["id"] for s in cfg["engines"][0]["sensors"]]
+    tids = [t["id"] for e in cfg["engines"] for t in e["targets"]]
+    sids = [s["id"] for e in cfg["engines"] for s in e["sensors"]]
     imported = (tids if "t" in var["mode"] else []) + (sids if "s" in var["mode"] else [])
     A = lambda i: f"a{i}"  # noqa: E731
     # the observation table only matters when observations are imported
@@ -145,10 +154,18 @@ def _run_variant(fam, var, src, workdir):
                 continue          # realtime agents are merged later in the step (propagation jobs)
             cur = tuple(float(x) for x in np.asarray(ag.eci_state, float).ravel())
             match = [k for (a, k), v in rows.items() if a == aid and v == cur]
+            # the agent's derived Earth-fixed state must belong to the same epoch as the imported inertial state
+            derived_ok = True
+            if hasattr(ag, "ecef_state"):
+                from datetime import timedelta
+                from resonaate.physics.transforms.methods import eci2ecef
+                auth = state["app"].clock.datetime_start + timedelta(seconds=state["k"] * fam["step"])
+                want = eci2ecef(np.asarray(ag.eci_state, float), auth)
+                derived_ok = bool(np.linalg.norm(np.asarray(ag.ecef_state, float)[:3] - want[:3]) < 1e-3)
             if match:
-                out.append([A(aid), "import", max(match)])
+                out.append([A(aid), "import", max(match), derived_ok])
             else:
-                out.append([A(aid), "init" if state["k"] == 0 else "unknown", 0])
+                out.append([A(aid), "init" if state["k"] == 0 else "unknown", 0, derived_ok])
         return out
 
     def imp(self, datetime_epoch):
@@ -214,8 +231,8 @@ def _run_family(fam):
     try:
         src = os.path.join(workdir, "source.sqlite3")
         cfg = _make_source(fam, src)
-        tids = [t["id"] for t in cfg["engines"][0]["targets"]]
-        sids = [s["id"] for s in cfg["engines"][0]["sensors"]]
+        tids = [t["id"] for e in cfg["engines"] for t in e["targets"]]
+        sids = [s["id"] for e in cfg["engines"] for s in e["sensors"]]
         out = []
         for var in fam["variants"]:
             v = dict(var)
@@ -249,6 +266,10 @@ def make_families(ctx: Ctx, rng):
         variants.append({"name": "thin_obs3_extras", "mode": "o", "drop_obs": 3, "extras": 1})
         variants.append({"name": "extras_gap", "mode": "ts", "extras": 2, "extras_gap": 2})
         fams.append({"start": start, "step": step, "nsteps": n, "nt": 2, "ns": 4, "variants": variants})
+    # two engines (disjoint networks) importing observations
+    fams.append({"start": "2018-12-01T12:00:00", "step": 60, "nsteps": 3, "nt": 2, "ns": 4, "two_engines": True,
+                 "variants": [{"name": "exact_tso_2eng", "mode": "tso"}, {"name": "exact_o_2eng", "mode": "o"},
+                              {"name": "superset_ts_2eng", "mode": "ts", "extras": 1}]})
     return fams
 
 
